@@ -11,10 +11,8 @@ EnvSits == {([env |-> e] @@ S("nonascii", c, f, "none")) : c \in {"path", "stdin
 Owns == {"none", "json", "csv", "both", "jsonfirst", "escape", "badname", "subdir"}      \* "subdir": own reports named "dir/file"
 Raw == {S(i, c, f, o) : i \in {"missing", "directory", "empty", "blank", "syntax", "model", "ok"},
                         c \in {"path", "dash", "stdin"}, f \in {"json", "csv"}, o \in Owns}
-\* a missing path / a directory cannot arrive over stdin; a whitespace-only FILE is not "empty input" for the
-\* implementation (it is a parse failure): only the stream case is claimed
-AllSits == {s \in Raw : /\ ~(s.input \in {"missing", "directory"} /\ s.channel \in {"dash", "stdin"})
-                        /\ ~(s.input = "blank" /\ s.channel = "path")}
+\* a missing path / a directory cannot arrive over stdin; input that is nothing but white space is empty input on every channel (F91)
+AllSits == {s \in Raw : ~(s.input \in {"missing", "directory"} /\ s.channel \in {"dash", "stdin"})}
            \cup {SO(i, c, f, o, w) : i \in {"ok", "syntax"}, c \in {"path", "stdin"}, f \in {"json", "csv"}, o \in {"none", "both"},
                                       w \in {"newfile", "exists", "force", "baddir", "brokenpipe"}}
            \* "partial": a project in which some tasks cannot be scheduled (no allocation, a dependency loop): success, empty dates;
